@@ -981,6 +981,9 @@ func TestCheck(t *testing.T) {
 	// Part B
 	pool := vlib.NewPool()
 	pool.CaseTimeout = 10 * time.Minute
+	if !run.Thorough() {
+		pool.CaseTimeout = time.Minute // a quick case takes seconds; one that hangs is run again alone with four times this
+	}
 	defer pool.Close()
 	bound := 2
 	if run.Thorough() {
